@@ -27,7 +27,7 @@ RULE = ('a recorded list of calls (make / make_qr / make_micro / make_sequence w
         'matrix; distinct = distinct (call, context) executions compared with a golden fingerprint')
 ASSUMPTIONS = ['golden = first call in a fresh interpreter (PYTHONHASHSEED=0)', 'interleavings are sampled, not enumerated; with the GIL only '
                'statement-granular switches exist', 'free-threaded builds are out of reach']
-REQUIRED = ['evaluations', 'golden_subprocesses', 'history_replays_compared', 'thread_calls_compared', 'barrier_rounds',
+REQUIRED = ['evaluations', 'golden_subprocesses', 'hashseed_variants_compared', 'history_replays_compared', 'thread_calls_compared', 'barrier_rounds',
             'injected_yields', 'state_fingerprints_compared', 'returned_matrices_rehashed', 'idempotence_pairs', 'argument_snapshots_compared',
             'overlapping_call_pairs']
 TIMEOUT = {'quick': 1200, 'thorough': 7200}
@@ -141,16 +141,25 @@ def execute(call):
         return 'raised:%s:%s' % (type(ex).__name__, str(ex)[:80].strip()), []
 
 
-def golden_in_subprocess(calls):
+def golden_in_subprocess(calls, rec=None):
     """Each call alone, as the first call of a fresh interpreter."""
     res = {}
-    for c in calls:
+    for k, c in enumerate(calls):
         p = subprocess.run([sys.executable, '-m', 'vmon.props.c15', 'one'], input=json.dumps(core.enc(c)).encode(), capture_output=True,
                            env=core.child_env(), cwd=core.VERIF, timeout=300)
         if p.returncode != 0:
             res[c['id']] = 'golden-failed:%s' % p.stderr.decode('utf-8', 'replace')[-200:]
         else:
             res[c['id']] = p.stdout.decode().strip()
+        if k % 4 == 0 and rec is not None:
+            # the same call in another fresh interpreter with another string-hash seed: results must not depend on set / dict order
+            env = dict(core.child_env(), PYTHONHASHSEED=str(1000 + k))
+            p2 = subprocess.run([sys.executable, '-m', 'vmon.props.c15', 'one'], input=json.dumps(core.enc(c)).encode(), capture_output=True,
+                                env=env, cwd=core.VERIF, timeout=300)
+            rec.count('hashseed_variants_compared')
+            if p2.returncode == 0 and p.returncode == 0 and p2.stdout.decode().strip() != res[c['id']]:
+                rec.deviation('C15', 'result-depends-on-hash-seed', {'seed0': res[c['id']], 'other': p2.stdout.decode().strip(),
+                                                                     'call': core.short(core.enc(c), 250)}, case=c)
     return res
 
 
@@ -336,7 +345,7 @@ def run_cases(cases, rec, tier='quick', seed='0'):
     state_at_import = module_state()
     groups = [c for c in cases if c['op'] == 'barrier-group']
     plain = [c for c in cases if c['op'] != 'barrier-group'] + interaction_core()
-    golden = golden_in_subprocess(plain + [cc for g in groups for cc in g['calls']])
+    golden = golden_in_subprocess(plain + [cc for g in groups for cc in g['calls']], rec)
     rec.count('golden_subprocesses', len(golden))
     # ---------------------------------------------------------------- threads first: every size is used for the first
     # time in this process by several threads at once
